@@ -1,7 +1,43 @@
 (* C02 - The SKR contains exactly what the KSR and the signing schema dictate. *)
 From Coq Require Import String.
 From KV Require Import Base.Prelude Base.Exn Base.Bytes Model.Data Model.Wire Model.KsrPolicy Model.Token Model.Sign
-  Proofs.WireProofs.
+  Proofs.WireProofs Proofs.SignProofs.
+From KV Require Gen.Wire Gen.Policy.
+
+Theorem C02_response_bundle_facts : forall H token_sign verify ds_hex i b schema ms ttl sn kks validate rb,
+  sign_bundle H token_sign verify ds_hex i b schema ms ttl sn kks validate = OK rb ->
+  b_id rb = b_id b /\ b_inc rb = b_inc b /\ b_exp rb = b_exp b /\
+  kts_inv ttl (b_keys rb) /\
+  (forall z, In z (b_keys b) -> exists x, In x (b_keys rb) /\ k_pubtxt x = k_pubtxt z) /\
+  alg_set (map k_alg (b_keys b)) = alg_set (map s_alg (b_sigs rb)) /\
+  (forall s, In s (b_sigs rb) ->
+     s_inc s = b_inc b /\ s_exp s = b_exp b /\ s_ttl s = ttl /\ s_ottl s = ttl /\ s_name s = dot /\ s_labels s = 0 /\ s_type s = TYPE_DNSKEY /\
+     exists dk, kts_get (s_id s) (b_keys rb) = Some dk /\ s_tag s = k_tag dk) /\
+  (validate = true -> forall s, In s (b_sigs rb) ->
+     exists key tbs, In key (b_keys rb) /\ k_id key = s_id s /\ rfc4034_signature_data s (b_keys rb) tbs /\
+                     verify (k_pubtxt key) (k_alg key) tbs (s_datatxt s) = true).
+Proof. exact response_bundle_facts. Qed.
+Print Assumptions C02_response_bundle_facts.
+
+Theorem C02_alg_mismatch_refused : forall H token_sign verify ds_hex i b schema ms ttl sn kks validate rb,
+  sign_bundle H token_sign verify ds_hex i b schema ms ttl sn kks validate = OK rb ->
+  forall a, In a all_algorithms -> (mem a (map k_alg (b_keys b)) = mem a (map s_alg (b_sigs rb))).
+Proof. exact alg_mismatch_refused. Qed.
+Print Assumptions C02_alg_mismatch_refused.
+
+Theorem C02_every_slot : forall H token_sign verify ds_hex bs i schema ms ttl sn kks validate rbs,
+  sign_bundles_from H token_sign verify ds_hex i bs schema ms ttl sn kks validate = OK rbs ->
+  Forall2 (fun b rb => exists j, sign_bundle H token_sign verify ds_hex j b schema ms ttl sn kks validate = OK rb) bs rbs.
+Proof. exact sign_bundles_all. Qed.
+Print Assumptions C02_every_slot.
+
+(* the container of keys to sign: TTL overridden, unique by public key *)
+Theorem C02_kts_add_invariant : forall ttl keys k, kts_inv ttl keys -> kts_inv ttl (kts_add ttl keys k).
+Proof. exact kts_inv_add. Qed.
+Print Assumptions C02_kts_add_invariant.
+Theorem C02_kts_update_invariant : forall ttl keys k, kts_inv ttl keys -> kts_inv ttl (kts_update ttl keys k).
+Proof. exact kts_inv_update. Qed.
+Print Assumptions C02_kts_update_invariant.
 
 Theorem C02_as_revoked_only_bit7 : forall k k',
   as_revoked k = OK k' ->
@@ -13,3 +49,8 @@ Theorem C02_as_revoked_only_bit7 : forall k k',
   calculate_key_tag k' = OK (k_tag k').
 Proof. exact as_revoked_only_bit7. Qed.
 Print Assumptions C02_as_revoked_only_bit7.
+
+Theorem C02_gen_flags_and_ttl :
+  (KV.Gen.Wire.flag_SEP, KV.Gen.Wire.flag_REVOKE, KV.Gen.Wire.flag_ZONE) = (FLAG_SEP, FLAG_REVOKE, FLAG_ZONE) /\ KV.Gen.Policy.ksk_ttl = 172800.
+Proof. exact (conj eq_refl eq_refl). Qed.
+Print Assumptions C02_gen_flags_and_ttl.
